@@ -107,11 +107,16 @@ def parse(repo):
     # ---- prefix operators: parseExpressionWithPrecedenceUnary
     ub = body_of(pe, r"bool Parser::parseExpressionWithPrecedenceUnary\(ExpressionSyntax\*& expr\)\s*\{")
     prefix = {}
-    for m in re.finditer(r"((?:case SyntaxKind::\w+:\s*)+)(?:if \([^;]*;\s*)?return parsePrefixUnaryExpression_AtFirst\(\s*expr,\s*SyntaxKind::(\w+),\s*&Parser::parseExpressionWithPrecedence(Unary|Cast)\);", ub):
+    guarded = []
+    # between the labels and the call: nothing, or guard statements (`if (...) diagnostic;`, `if (...) { ...; return false; }`) - an operator with
+    # guards is listed in `prefixGuarded`: its operand is restricted further than the operand parser says (GNU `&&label`)
+    for m in re.finditer(r"((?:case SyntaxKind::\w+:\s*)+)((?:(?!case SyntaxKind::)(?!default:)(?!return parse)[\s\S])*?(?:return false;\s*\}\s*)?)return parsePrefixUnaryExpression_AtFirst\(\s*expr,\s*SyntaxKind::(\w+),\s*&Parser::parseExpressionWithPrecedence(Unary|Cast)\);", ub):
         for lab in re.findall(r"case SyntaxKind::(\w+):", m.group(1)):
             if lab in prefix:
                 raise TranslateError("prefix operator listed twice: " + lab)
-            prefix[lab] = (m.group(2), m.group(3) == "Unary")
+            prefix[lab] = (m.group(3), m.group(4) == "Unary")
+            if "return false" in m.group(2):
+                guarded.append(lab)
     if ub.count("parsePrefixUnaryExpression_AtFirst") != len(set(v[0] for v in prefix.values())):
         raise TranslateError("parseExpressionWithPrecedenceUnary: a prefix-operator case is outside the subset")
     # ---- postfix loop: parsePostfixExpression_AtFollowOfPrimary
@@ -133,7 +138,25 @@ def parse(repo):
     if not m:
         raise TranslateError("parseExpressionWithPrecedenceCast outside the subset")
     typestart = re.findall(r"case SyntaxKind::(\w+):", m.group(1))
-    return dict(prefix=prefix, postfix=postfix, typestart=typestart, levels=levels, prec=prec, ra=ra, kinds=kinds, kdef=kdef.split("::")[1], isop=sorted(isop), isasg=sorted(isasg), isbin=sorted(isbin))
+    # ---- FIRST sets: the keywords that send a statement / the first clause of a `for` to the declaration parser, the keywords
+    # parseDeclarationSpecifiers takes as a specifier, those parseSpecifierQualifierList takes
+    ps = strip_comments(open(os.path.join(repo, "C/parser/Parser_Statements.cpp")).read())
+    pd = strip_comments(open(os.path.join(repo, "C/parser/Parser_Declarations.cpp")).read())
+
+    def labels_between(src, start, stop):
+        i = src.index(start)
+        j = src.index(stop, i)
+        return list(dict.fromkeys(re.findall(r"case SyntaxKind::(Keyword\w+):", src[i:j])))
+    try:
+        stmt_decl = labels_between(ps, "bool Parser::parseStatement(", "case SyntaxKind::IdentifierToken")
+        for_decl = labels_between(ps, "bool Parser::parseForStatement_AtFirst(", "case SyntaxKind::IdentifierToken")
+        decl_spec = labels_between(pd, "bool Parser::parseDeclarationSpecifiers(", "bool Parser::parseSpecifierQualifierList(")
+        spec_qual = labels_between(pd, "bool Parser::parseSpecifierQualifierList(", "void Parser::parseTrivialSpecifier_AtFirst")
+    except ValueError as e:
+        raise TranslateError("FIRST-set switches not found in the expected form: %s" % e)
+    if not (stmt_decl and for_decl and decl_spec and spec_qual):
+        raise TranslateError("an empty FIRST set")
+    return dict(guarded=guarded, stmt_decl=stmt_decl, for_decl=for_decl, decl_spec=decl_spec, spec_qual=spec_qual, prefix=prefix, postfix=postfix, typestart=typestart, levels=levels, prec=prec, ra=ra, kinds=kinds, kdef=kdef.split("::")[1], isop=sorted(isop), isasg=sorted(isasg), isbin=sorted(isbin))
 
 
 def main(repo, outpath):
@@ -161,6 +184,8 @@ def main(repo, outpath):
     for k, (node, un) in t["prefix"].items():
         L.append("  | .%s => some %s" % (k, "true" if un else "false"))
     L.append("  | _ => none\n")
+    L.append("/-- prefix operators whose case carries a guard that refuses some operands before the operand parser is called -/")
+    L.append("def prefixGuarded : List Kind := [%s]\n" % ", ".join("." + k for k in t["guarded"]))
     L.append("def prefixNode : Kind → Kind")
     for k, (node, un) in t["prefix"].items():
         L.append("  | .%s => .%s" % (k, node))
@@ -171,6 +196,12 @@ def main(repo, outpath):
         L.append("def %s : List Kind := [%s]\n" % (name, ", ".join("." + k for k, v in t["postfix"].items() if v == cls)))
     L.append("/-- `parseExpressionWithPrecedenceCast`: after `(`, these tokens start a type name -/")
     L.append("def castTypeStart : List Kind := [%s]\n" % ", ".join("." + k for k in t["typestart"]))
+    for name, key, doc in (("stmtDeclStart", "stmt_decl", "`parseStatement`: keywords that send the statement to the declaration parser"),
+                           ("forDeclStart", "for_decl", "`parseForStatement_AtFirst`: keywords that make the first clause a declaration"),
+                           ("declSpecStart", "decl_spec", "`parseDeclarationSpecifiers`: keywords it takes as a specifier"),
+                           ("specQualStart", "spec_qual", "`parseSpecifierQualifierList`: keywords it takes as a specifier or qualifier")):
+        L.append("/-- %s -/" % doc)
+        L.append("def %s : List Kind := [%s]\n" % (name, ", ".join("." + k for k in t[key])))
     L.append("def levelNames : List (String × Nat) := [%s]" % ", ".join('("%s", %d)' % kv for kv in t["levels"].items()))
     L.append("\nend PsycheModel.Generated.Facts\n")
     txt = "\n".join(L)
